@@ -209,9 +209,14 @@ class SimLock:
         b = CURRENT_BATON
         if b is None or not b.is_holder():
             return self._real.acquire(True, timeout)
-        while not self._real.acquire(False):
+        while True:
+            # a thread the code under test started itself may hold it briefly: wait a moment for real
+            if self._real.acquire(True, 0.05):
+                return True
+            if not b.others_alive():
+                # no parked session could hold it: an ordinary blocking acquire
+                return self._real.acquire(True, timeout)
             b.blocked_yield()
-        return True
 
     def release(self):
         self._real.release()
@@ -341,6 +346,10 @@ class Baton:
     def is_holder(self):
         t = threading.current_thread()
         return self.current is not None and self.threads[self.current] is t
+
+    def others_alive(self):
+        me = self._me()
+        return any(i != me for i in self.alive)
 
     def blocked_yield(self):
         """The holder cannot get a lock that a parked session owns: someone else must run."""
